@@ -455,6 +455,10 @@ func (x *fnExec) external(fr *frame, st *State, ci ssa.CallInstruction, res ssa.
 		if sc != nil {
 			x.sortCmpCheck(fr, st, ci, sc)
 			defer func() { x.sortedFact(fr, st, sc) }()
+		} else {
+			// nothing is known about the order of the result: counts as an abstracted callee (a postcondition that fails
+			// only after such a call appeared is undecided, not a violation)
+			x.abstracted[name+" (comparator not recognised: order of the result unknown)"] = true
 		}
 		for i, a := range args {
 			if a.K == VSlice {
